@@ -52,7 +52,7 @@ type eventForm struct {
 func eventForms(full bool) []eventForm {
 	entries := []seqx.Entry{{Kind: "Info"}, {Kind: "Debug"}, {Kind: "Log"}, {Kind: "WithLevel", Level: zerolog.WarnLevel}, {Kind: "Err"}, {Kind: "ErrNil"}, {Kind: "Error"}, {Kind: "WithLevel", Level: zerolog.Level(-3)}}
 	fieldSets := [][]seqx.Field{nil, {{M: "Str", Key: "f1", Val: "x"}}, {{M: "Int", Key: "f1", Val: 1}, {M: "Dict", Key: "f2", Sub: []seqx.Field{{M: "Str", Key: "in", Val: "y"}}}}}
-	finals := []seqx.Final{msgM, msgEmpty, {Kind: "Msgf", Text: "fm"}, msgFunc, send}
+	finals := []seqx.Final{msgM, msgEmpty, {Kind: "Msgf", Text: "fm"}, msgFunc, send, {Kind: "MsgfRaw", Text: "100%% d"}, {Kind: "MsgfArgs", Text: "x"}}
 	var out []eventForm
 	if full {
 		for _, e := range entries {
@@ -66,8 +66,8 @@ func eventForms(full bool) []eventForm {
 	}
 	// reduced: every entry, every field set, every finaliser appears, not the full product
 	for i, e := range entries {
-		out = append(out, eventForm{e, fieldSets[i%3], finals[i%5]})
-		out = append(out, eventForm{e, fieldSets[(i+1)%3], finals[(i+2)%5]})
+		out = append(out, eventForm{e, fieldSets[i%3], finals[i%len(finals)]})
+		out = append(out, eventForm{e, fieldSets[(i+1)%3], finals[(i+2)%len(finals)]})
 	}
 	return out
 }
